@@ -581,3 +581,13 @@ PROPS["C18"]._v = PROPS["C18"]._v + [V_MAIN]         # render_parse_error: posit
 PROPS["C18"].assumptions = PROPS["C18"].assumptions + [
     "V-main/render_parse_error: lalrpop_util::ParseError is declared with the public shape of the dependency pinned in Cargo.lock (assumed); the token spans the generated "
     "parser attaches (`@L` in parser.lalrpop) are outside every contract"]
+
+
+# Lexer::next_token - the dispatch of the lexer (C03 / C09 / C18)
+V_LEXTOKEN = VUnit("lex_token", "lex_token", ["lexer::Lexer::next_token"])
+ALL_V += [V_LEXTOKEN]
+PROPS["C02"]._v = ALL_V
+for _p in ("C03", "C09", "C18"):
+    PROPS[_p]._v = PROPS[_p]._v + [V_LEXTOKEN]
+    PROPS[_p].assumptions = PROPS[_p].assumptions + [
+        "V-lextoken: the sub-lexers are external with uninterpreted results (skip_end, sem_word, sem_int, sem_str, sem_symbol); the END position of a token span is not under contract"]
